@@ -82,6 +82,24 @@ AVM_DIVDEF(int32_t, i32, (-2147483647 - 1), 1) AVM_DIVDEF(int64_t, i64, (-922337
 #define AVM_REM_i64(a, b) ((int64_t)(a) % (int64_t)(b))
 #endif
 
+/* Integer multiplication of the extracted code: the C operator by default; an uninterpreted symbol with AVM_MUL_UF (used by
+ * the Granlund-Montgomery code-level contracts, where code and specification contain the same 64-bit products). */
+#if defined(AVM_MUL_UF) && !defined(AVM_NATIVE)
+uint32_t __CPROVER_uninterpreted_mul_u32(uint32_t, uint32_t); uint64_t __CPROVER_uninterpreted_mul_u64(uint64_t, uint64_t);
+unsigned __int128 __CPROVER_uninterpreted_mul_u128(unsigned __int128, unsigned __int128);
+#define AVM_MUL_u128(a, b) __CPROVER_uninterpreted_mul_u128((unsigned __int128)(a), (unsigned __int128)(b))
+#define AVM_MUL_u32(a, b) __CPROVER_uninterpreted_mul_u32((uint32_t)(a), (uint32_t)(b))
+#define AVM_MUL_u64(a, b) __CPROVER_uninterpreted_mul_u64((uint64_t)(a), (uint64_t)(b))
+#define AVM_MUL_i32(a, b) ((int32_t)(a) * (int32_t)(b))
+#define AVM_MUL_i64(a, b) ((int64_t)(a) * (int64_t)(b))
+#else
+#define AVM_MUL_u128(a, b) ((unsigned __int128)(a) * (unsigned __int128)(b))
+#define AVM_MUL_u32(a, b) ((uint32_t)(a) * (uint32_t)(b))
+#define AVM_MUL_u64(a, b) ((uint64_t)(a) * (uint64_t)(b))
+#define AVM_MUL_i32(a, b) ((int32_t)(a) * (int32_t)(b))
+#define AVM_MUL_i64(a, b) ((int64_t)(a) * (int64_t)(b))
+#endif
+
 /* MXCSR apart from the rounding-control field, which lives in __CPROVER_rounding_mode (same encoding) */
 unsigned int model_mxcsr = 0x1f80u;
 
